@@ -11,6 +11,7 @@
 #include <chrono>
 #include <cstdint>
 #include <functional>
+#include <mutex>
 #include <memory>
 #include <system_error>
 #include <sys/epoll.h>
@@ -160,9 +161,15 @@ public:
     processBatch(epollFd, generalHandler, specialHandler, onBatchComplete);
   }
 
+  // Thread-safe: Transport::getStats() calls this from application threads while the
+  // I/O thread updates the counters once per batch.
   BatchProcessingStats getStats() const
   {
-    auto stats = stats_;
+    BatchProcessingStats stats;
+    {
+      std::lock_guard<std::mutex> g(statsMx_);
+      stats = stats_;
+    }
 
     if (stats.totalBatches > 0)
     {
@@ -181,7 +188,10 @@ public:
 
   void resetStats()
   {
-    stats_ = {};
+    {
+      std::lock_guard<std::mutex> g(statsMx_);
+      stats_ = {};
+    }
     lastAdjustment_ = std::chrono::steady_clock::now();
   }
 
@@ -223,6 +233,7 @@ private:
 
   void updateStats(int eventCount, std::chrono::microseconds processingTime)
   {
+    std::lock_guard<std::mutex> g(statsMx_);
     stats_.totalBatches++;
     stats_.totalEvents += eventCount;
     stats_.totalBatchTime += processingTime;
@@ -278,6 +289,7 @@ private:
       // Increase by 25% or at least 1
       std::size_t increase = std::max(1UL, currentBatchSize_ / 4);
       currentBatchSize_ = std::min(config_.maxBatchSize, currentBatchSize_ + increase);
+      std::lock_guard<std::mutex> g(statsMx_);
       stats_.adaptiveAdjustments++;
     }
     else if (shouldDecrease && currentBatchSize_ > 1)
@@ -285,6 +297,7 @@ private:
       // Decrease by 25% but at least keep 1
       std::size_t decrease = std::max(1UL, currentBatchSize_ / 4);
       currentBatchSize_ = std::max(1UL, currentBatchSize_ - decrease);
+      std::lock_guard<std::mutex> g(statsMx_);
       stats_.adaptiveAdjustments++;
     }
   }
@@ -292,6 +305,7 @@ private:
 private:
   BatchProcessingConfig config_;
   std::vector<epoll_event> events_;
+  mutable std::mutex statsMx_; // guards stats_ (written per batch on the I/O thread, read by getStats())
   BatchProcessingStats stats_;
 
   // Adaptive sizing state
